@@ -59,6 +59,10 @@ def cases(ctx: Ctx):
     yield (None, [10, 10, 9, 10])
     yield ('a_1', [5, 4, 5, 4, 5])
     yield (None, [0, 0, -1, 0])
+    # bursts: "any number of requests within the same second" -- counters past 10^k boundaries, then the next seconds
+    for burst in (9, 10, 11, 99, 100, 101, 999, 1000, 1001, 1100):
+        yield ('b', [7] * burst + [8, 8, 9])
+        yield (None, [7] * burst + [8, 6, 8, 9])
     maxlen = 8 if ctx.thorough else 6
     for n in range(1, maxlen + 1):
         for steps in itertools.product((-2, -1, 0, 1, 2), repeat=n):
@@ -107,6 +111,10 @@ def run(ctx: Ctx) -> Result:
         if set(i1) & set(i2):
             res.violations.append(Violation('prefix-collision', f"prefixes {u1!r} and {u2!r} share {sorted(set(i1) & set(i2))[:2]}",
                                             {'prefixes': [u1, u2], 'readings': r}))
+    # generators as the setup classes build them: every instance's event and run identifiers carry its own URN
+    for v in setup_prefix_violations():
+        res.violations.append(v)
+    res.add_case({'setup': 'BoboSetupSimple / BoboSetupSimpleDistributed generators of two instances'})
     # concurrent callers on real threads under a jittering patched clock (monitored residue)
     if ctx.replay is None:
         ids = threaded_ids(8, 2000 if ctx.thorough else 300, ctx.rng)
@@ -128,6 +136,60 @@ def run(ctx: Ctx) -> Result:
         res.disagreements.append({'correspondence': 'idgen', 'error': 'model driver did not build'})
     res.exhaustive = True
     return res
+
+
+def setup_prefix_violations():
+    """two engines built by the setup classes with different URNs, same (frozen) clock: no identifier of one instance
+    (run identifiers of the decider, event identifiers of receiver / producer / forwarder) equals one of the other."""
+    from bobocep.setup.simple import BoboSetupSimple, BoboSetupSimpleDistributed
+    from bobocep.cep.action.handler import BoboActionHandlerBlocking
+    from bobocep.cep.phenom import BoboPhenomenon
+    from bobocep.cep.phenom.pattern.builder import BoboPatternBuilder
+    from bobocep.dist.device import BoboDevice
+    out = []
+
+    def phen():
+        pat = BoboPatternBuilder('p').followed_by(lambda e, h: e.data == 1).followed_by(lambda e, h: e.data == 2).generate()
+        return [BoboPhenomenon(name='ph', patterns=[pat], action=None)]
+
+    def gens_of(engine):
+        found = {}
+        for comp in (engine.receiver, engine.decider, engine.producer, engine.forwarder):
+            for attr, val in vars(comp).items():
+                if isinstance(val, BoboGenEventIDUnique):
+                    found[f"{comp.__class__.__name__}.{attr}"] = val
+        return found
+
+    clock = Clock()
+    clock.readings = [500] * 4000
+    old = event_id_mod.time
+    event_id_mod.time = clock
+    try:
+        devices = [BoboDevice('127.0.0.1', 9301, 'urn_a', 'k1'), BoboDevice('127.0.0.1', 9302, 'urn_b', 'k2')]
+        builds = {
+            'simple': [BoboSetupSimple(phenomena=phen(), handler=BoboActionHandlerBlocking(), urn=u).generate() for u in ('urn_a', 'urn_b')],
+            'distributed': [BoboSetupSimpleDistributed(phenomena=phen(), handler=BoboActionHandlerBlocking(), urn=u, devices=devices,
+                                                       aes_key='0123456789abcdef').generate()[0] for u in ('urn_a', 'urn_b')],
+        }
+        for kind, (ea, eb) in builds.items():
+            ga, gb = gens_of(ea), gens_of(eb)
+            if not ga or set(ga) != set(gb):
+                out.append(Violation('setup-generators-not-found', f"{kind}: identifier generators found: {sorted(ga)} / {sorted(gb)}", {'setup': kind}))
+                continue
+            ids_a = {k: [g.generate() for _ in range(3)] for k, g in ga.items()}
+            ids_b = {k: [g.generate() for _ in range(3)] for k, g in gb.items()}
+            for ka, la in ids_a.items():
+                for kb, lb in ids_b.items():
+                    common = set(la) & set(lb)
+                    if common:
+                        out.append(Violation(
+                            'prefix-collision',
+                            f"{kind} setup: instance urn_a's {ka} and instance urn_b's {kb} both issued {sorted(common)[0]!r} in the same second "
+                            f"(the generators of an instance must carry its URN)", {'setup': kind, 'a': ka, 'b': kb}))
+                        return out
+    finally:
+        event_id_mod.time = old
+    return out
 
 
 def threaded_ids(nthreads, per, rng):
@@ -158,6 +220,19 @@ def threaded_ids(nthreads, per, rng):
 def search(ctx: Ctx) -> Result:
     """failing-input search on the real code alone: all step sequences over {-2..2} up to length 8."""
     res = Result()
+    for burst in (10, 11, 100, 101, 1000, 1001, 1100, 10001):
+        for tail in ([8, 8, 9], [8, 6, 8, 9]):
+            r = [7] * burst + tail
+            ids = impl_ids('s', r)
+            res.evaluations += 1
+            if not oracle(ids):
+                dup = sorted({i for i in ids if ids.count(i) > 1})
+                res.violations.append(Violation('duplicate-id', f"identifier {dup[0]!r} issued twice: {burst} requests in one second, then clock {tail}",
+                                                {'urn': 's', 'readings': r}))
+                return res
+    for v in setup_prefix_violations():
+        res.violations.append(v)
+        return res
     for n in range(1, 9):
         for steps in itertools.product((-2, -1, 0, 1, 2), repeat=n):
             r = steps_to_readings(50, steps)
